@@ -56,6 +56,9 @@ struct Cls
     std::vector<std::pair<int, uint8_t>> reserved;      // (byte offset, mask) that must be zero in default objects
     std::function<size_t(const T&)> size;               // sizeof / getLength of a default object
     std::function<T(int)> makeBg;                       // classes without raw image: background object by index 0..3
+    std::function<T(int)> consistent;                   // optional background 4: an object whose fields are consistent with each other BY THE
+                                                        // PROTOCOL'S SEMANTICS (valid LIN parity, checksum matching the data, DLC matching the
+                                                        // length); argument: number of data bytes
     std::vector<std::string> assumptions;
 };
 
@@ -254,6 +257,13 @@ static inline Cls<A::CanPayload> canPayload()
     };
     addFlags<T, A::CanPayloadBase::Flags>(c, kCanFlags);
     c.reserved = {{2, 0xFF}, {3, 0xFF}, {8, 0x7F}, {9, 0xFF}, {10, 0x80}};   // CAN: crc word bits 30..15
+    c.consistent = [](int extra) {
+        T t;
+        Bytes d((size_t) extra, 0x5A);
+        t.setId(0x123);
+        t.setData(d.data(), (uint8_t) d.size());   // DLC and data length match the data
+        return t;
+    };
     addPayloadBase<T>(c);
     return c;
 }
@@ -279,6 +289,13 @@ static inline Cls<A::CanFdPayload> canFdPayload()
     };
     addFlags<T, A::CanPayloadBase::Flags>(c, kCanFlags);
     c.reserved = {{2, 0xFF}, {3, 0xFF}, {8, 0x3E}};
+    c.consistent = [](int extra) {
+        T t;
+        Bytes d((size_t) extra, 0x5A);
+        t.setId(0x123);
+        t.setData(d.data(), (uint8_t) d.size());   // DLC and data length match the data
+        return t;
+    };
     addPayloadBase<T>(c);
     return c;
 }
@@ -298,6 +315,7 @@ static inline Cls<A::LinPayload::Header> linHeader()
     };
     addFlags<T, A::LinPayload::Flags>(c, kLinFlags);
     c.reserved = {{2, 0xFF}, {3, 0xFF}, {5, 0xFF}};
+    c.consistent = [](int) { T t; t.setLinId(0x2A); t.setParityBits(0x1); return t; };   // protected id 0x6A: P0 = 1, P1 = 0 is the valid parity of id 0x2A
     return c;
 }
 
@@ -315,6 +333,22 @@ static inline Cls<A::LinPayload> linPayload()
     };
     addFlags<T, A::LinPayload::Flags>(c, kLinFlags);
     c.reserved = {{2, 0xFF}, {3, 0xFF}, {5, 0xFF}};
+    c.consistent = [](int extra) {
+        T t;
+        t.setLinId(0x2A); t.setParityBits(0x1);   // valid parity of id 0x2A
+        Bytes d((size_t) extra);
+        unsigned sum = 0;
+        for (size_t i = 0; i < d.size(); ++i)
+        {
+            d[i] = (uint8_t) (0x31 + 7 * i);
+            sum += d[i];
+            if (sum > 0xFF)
+                sum -= 0xFF;
+        }
+        t.setData(d.data(), (uint8_t) d.size());
+        t.setChecksum((uint8_t) ~sum);            // the classic LIN checksum of the data held
+        return t;
+    };
     addPayloadBase<T>(c);
     return c;
 }
